@@ -91,8 +91,12 @@ package rapidcore
 
 //@ modset serverReply = s.runtimeState, all(InvokeContext.ReplySent), all(InvokeContext.Direct), directSend
 
+// C10 ("extra callers are refused immediately"): every caller needs the server mutex three times before it can learn that the server
+// is reserved; the runtime's response body is client-paced network input and is read with that mutex held
+//@ event WholeBodyRead = call io.ReadAll
 //@ func (*Server).sendResponseUnsafe
 //@   requires held(s)
+//@   ensures [C10: the-runtime's-body-is-not-read-while-the-reservation-mutex-is-held] delta(WholeBodyRead) == 0
 //@   modifies all(InvokeContext.ReplySent), all(InvokeContext.Direct), directSend
 //@   ensures [bad-id] old(s.invokeCtx) == nil || invokeID != old(s.invokeCtx.Token.InvokeID) ==> r0 == interop.ErrInvalidInvokeID && noReplyWritten()
 //@   ensures [bad-id-no-effect] old(s.invokeCtx) != nil && invokeID != old(s.invokeCtx.Token.InvokeID) ==> unchanged(s.invokeCtx, s.invokeCtx.ReplySent, s.invokeCtx.ReplyStream, s.invokeCtx.Direct, s.invokeCtx.Token.InvokeID)
